@@ -12,7 +12,7 @@ LEVEL = "fault_enumeration"
 REPLAY_TRIES = 5   # the late-write race is real time: a violation must reproduce on >=1 of 5 replays
 RULE = ("Batches of 3-6 size-capped reactions (MCS-prone corpus reactions mixed with rule-based / balanced ones) x a "
         "fault plan over the (reaction, search condition) jobs of the substructure search and the per-reaction "
-        "fragment-analysis jobs, each none | internal exception | timeout(delay 60-600 ms). Enumerated for fixed "
+        "fragment-analysis jobs, each none | internal exception | timeout(delay 60-600 ms, or 2.6 s = longer than the 2 s job budget, so that a job queued behind the abandoned one would time out too). Enumerated for fixed "
         "batches: every single-job fault of both kinds and every per-reaction 'all three conditions fail' plan; "
         "Hypothesis draws multi-fault plans beyond. Injection (harness only, n_jobs=1): ThreadPool shim that delays the "
         "planned job and shortens the caller's wait to 50 ms (a genuine TimeoutError; the abandoned thread keeps running "
@@ -26,7 +26,7 @@ ASSUMPTIONS = [
     "on return and a late write cannot reach the caller)",
     "a joblib worker process dying mid-batch and exceptions raised by single_mcs itself are outside the fault model",
     "timing: the late write of an abandoned search thread is exercised with real threads and generated delays; a race "
-    "window narrower than the delay grid can be missed; an unplanned timeout text makes the case inconclusive",
+    "window narrower than the delay grid can be missed; an unplanned timeout text makes the case inconclusive unless an immediate fault-free control run of the same batch shows none (then it is attributed to the injected fault)",
     "a violation is reported only if it reproduces on at least one of 5 replays in a fresh process",
 ]
 
@@ -92,19 +92,28 @@ def check_case(case, spec=None):
         res.fail("rows-lost", "no row lost", n_in=len(rxs), n_out=len(rows), **detail)
         return res
     affected = {k[0] for k in mcs} | set(graph)
+    control = {"rows": None}
+
+    def fault_attributable():
+        """an unplanned timeout text: run the same batch again without faults. If that control run shows no timeout
+        the machine is not the cause, the injected fault spread to another reaction (e.g. a job queued behind the
+        abandoned one); if the control run shows timeouts too, the case is inconclusive (machine load)."""
+        if control["rows"] is None:
+            control["rows"], _ = run_with_plan(rxs, {}, {})
+        return not any(pipe.is_timeout_issue(r) for r in control["rows"])
     planned_timeout_ids = {k[0] for k, v in mcs.items() if v[0] == "timeout"} | {k for k, v in graph.items() if v[0] == "timeout"}
     n_nt = 0
     for i, (inp, row, b) in enumerate(zip(rxs, rows, base_rows)):
         rid = str(i)
         if rid not in affected:
-            if pipe.is_timeout_issue(row):
+            if pipe.is_timeout_issue(row) and not fault_attributable():
                 res.inconclusive = "unplanned timeout"
                 return res
             if pipe.row_key(row) != pipe.row_key(b):
                 res.fail("unaffected-row-changed", "other reactions unchanged", index=i, input=inp, got=pipe.row_key(row),
                          baseline=pipe.row_key(b), **detail)
             continue
-        if pipe.is_timeout_issue(row) and rid not in planned_timeout_ids:
+        if pipe.is_timeout_issue(row) and rid not in planned_timeout_ids and not fault_attributable():
             res.inconclusive = "unplanned timeout"
             return res
         kinds = sorted({v[0] for k, v in mcs.items() if k[0] == rid} | ({graph[rid][0]} if rid in graph else set()))
@@ -144,9 +153,16 @@ def fault_case(draw):
         "job": st.sampled_from(["mcs", "mcs", "graph"]),
         "cond": st.integers(0, 2),
         "kind": st.sampled_from(["raise", "timeout", "timeout"]),
-        "delay": st.sampled_from([0.06, 0.1, 0.15, 0.25, 0.4, 0.6]),
+        "delay": st.sampled_from([0.06, 0.1, 0.15, 0.25, 0.4, 0.6, 0.1, 0.25, 2.6]),
     })
     plan = draw(st.lists(fault, min_size=1, max_size=5))
+    # at most one long-running abandoned job (longer than the 2 s job budget) per plan: it costs real time
+    seen_long = False
+    for f in plan:
+        if f["delay"] > 2:
+            if seen_long or f["kind"] != "timeout":
+                f["delay"] = 0.25
+            seen_long = True
     if draw(st.integers(0, 3)) == 0:
         rid = draw(st.integers(0, n - 1))
         kind = draw(st.sampled_from(["raise", "timeout"]))
@@ -173,6 +189,9 @@ def enum_plans(rxs, delays):
             yield [{"rid": rid, "job": "graph", "cond": 0, "kind": "timeout", "delay": d}]
         for kind in ("raise", "timeout"):
             yield [{"rid": rid, "job": "mcs", "cond": c, "kind": kind, "delay": 0.1} for c in range(3)]
+        # an abandoned job that outlives the 2 s job budget (must not hold up the jobs of later reactions)
+        yield [{"rid": rid, "job": "mcs", "cond": 0, "kind": "timeout", "delay": 2.6}]
+        yield [{"rid": rid, "job": "graph", "cond": 0, "kind": "timeout", "delay": 2.6}]
 
 
 def shards(tier):
